@@ -127,6 +127,15 @@ def run(prog, rep, tier):
         guarded = any(pol is True and npred(c, True) in (("nonempty", pa3),) for c, pol in fit.path)
         rep.check("SLOTS.sources", guarded, fwhere(f3, fit.node), "forests are fitted only for nodes that have parents (sources keep None)",
                   "the no-parents test is not `pa(i, graph) != set()`")
+    if len(fits) == 1 and len(wst) == 1:
+        # the fit is kept on the wrapper object itself (drf.fit stores its state on self): every (node, environment)
+        # slot needs an object of its own, i.e. allocated in the innermost loop that contains the store
+        v = wst[0].value
+        news = [c for c in S3.select("call", qname=f3.qname) if v[0] == "new" and c.target == v[1] + ".__init__"]
+        fresh = v[0] == "new" and len(news) >= 1 and all(set(wst[0].loops) <= set(c.loops) for c in news) and len(wst[0].loops) >= 2
+        rep.check("SLOTS.fresh", fresh, fwhere(f3, news[0].node if news else wst[0].node),
+                  "a new forest object is built for every (node, environment) slot (inside both loops)",
+                  "the object stored at [i, k] is not allocated per (node, environment): slots share one fitted object, later fits overwrite earlier ones")
     rep.check("SLOTS.writer", okw, fwhere(f3, fits[0].node if fits else None),
               "forest[i, k] is fitted on X = data_k[:, sorted(pa(i))], Y = data_k[:, i]", "fit/store deviate: " + why)
     arr = [a for a in S3.select("attrstore", qname=f3.qname) if a.attr == "_random_forests"]
